@@ -228,12 +228,21 @@ func RunPolicyCase(cs map[string]any, id int, seed int64) Result {
 	var opts *validate.Options
 	result := ""
 	detail := ""
-	if mode == "policy" {
+	if mode == "policy" || mode == "policySparse" {
 		pol := &ccpb.Policy{
 			HeaderPolicy: &ccpb.HeaderPolicy{MinimumQeSvn: minQe, MinimumPceSvn: minPce, QeVendorId: bytesOpt["qeVendorId"]},
 			TdQuoteBodyPolicy: &ccpb.TDQuoteBodyPolicy{MinimumTeeTcbSvn: minTee, MrSeam: bytesOpt["mrSeam"], TdAttributes: bytesOpt["tdAttributes"],
 				Xfam: bytesOpt["xfam"], MrTd: bytesOpt["mrTd"], MrConfigId: bytesOpt["mrConfigId"], MrOwner: bytesOpt["mrOwner"],
 				MrOwnerConfig: bytesOpt["mrOwnerConfig"], Rtmrs: rtmrs, ReportData: bytesOpt["reportData"], AnyMrTd: any},
+		}
+		if mode == "policySparse" { // sub-messages in which nothing is configured are absent
+			if h := pol.HeaderPolicy; h.MinimumQeSvn == 0 && h.MinimumPceSvn == 0 && h.QeVendorId == nil {
+				pol.HeaderPolicy = nil
+			}
+			if b := pol.TdQuoteBodyPolicy; b.MinimumTeeTcbSvn == nil && b.MrSeam == nil && b.TdAttributes == nil && b.Xfam == nil && b.MrTd == nil && b.MrConfigId == nil &&
+				b.MrOwner == nil && b.MrOwnerConfig == nil && b.Rtmrs == nil && b.ReportData == nil && b.AnyMrTd == nil {
+				pol.TdQuoteBodyPolicy = nil
+			}
 		}
 		o := Guard(10*time.Second, func() error {
 			var err error
